@@ -1,8 +1,10 @@
+#![allow(unexpected_cfgs)]
 #![allow(dead_code)]
 //! h1x — real HTTP/1 connection under a scripted socket, scripted handlers/bodies and virtual time.
 //! Serves C01–C06 (DESIGN.md §3, Appendix A).
 
 mod analysis;
+mod c01;
 mod c02;
 mod c03;
 mod c04;
@@ -50,6 +52,7 @@ impl explore::Scenario for Job {
         let ex = driver::run(&self.sc, ch);
         let a = Analysis::new(&self.sc, &ex);
         let mut violations = match self.prop.as_str() {
+            "C01" => c01::check(&self.sc, &ex, &a),
             "C02" => c02::check(&self.sc, &ex, &a),
             "C03" => c03::check(&self.sc, &ex, &a),
             "C04" => c04::check(&self.sc, &ex, &a),
@@ -59,6 +62,7 @@ impl explore::Scenario for Job {
             violations.push(viol(&self.prop, "horizon", "step-horizon", format!("execution did not end within {} driver steps", driver::MAX_STEPS)));
         }
         let nontrivial = match self.prop.as_str() {
+            "C01" => c01::nontrivial(&ex, &a),
             "C02" => c02::nontrivial(&ex, &a),
             "C03" => c03::nontrivial(&ex, &a),
             "C04" => c04::nontrivial(&ex, &a),
@@ -116,6 +120,13 @@ fn main() {
     let tier = args.tier.clone();
     let start = Instant::now();
     let (scenarios, bounds, level, rule, assumptions): (Vec<scenario::Scenario>, Vec<u32>, &str, &str, Vec<&str>) = match prop.as_str() {
+        "C01" => {
+            let s = c01::scenarios(&tier);
+            let b = s.iter().map(|x| c01::bound(x, &tier)).collect();
+            (s, b, "model_checking",
+             "level 1: for every pipelined stream of the grammar (<= 3 messages; framings none / Content-Length / chunked with extensions, LWS, upper-case hex; 17 malformed classes at every position) an explicit-state BFS over 'feed the next k bytes to the real h1::Codec and decode until None/Err' with states merged by (bytes fed, codec snapshot, leftover, emitted digest) reaches every state any segmentation can reach, each transition judged against RFC 7230 ground truth, plus an un-merged enumeration of all <= 2-cut and the all-1-byte segmentations; level 2: the same streams through the real connection with a recording service (one that propagates body errors, one that never reads) under <= d deviations; non-trivial = a body was delivered, a malformed message was present, or more than one request was dispatched",
+             vec!["Date header values are masked", "decoding stops at the first codec error (as the dispatcher does)", "hook Codec::verif_snapshot feeds the BFS state key only; the un-merged twin does not use it", "clause (c) requires a 4xx only when no response to that request had been started"])
+        }
         "C02" => {
             let s = c02::scenarios(&tier);
             let b = s.iter().map(|x| c02::bound(x, &tier)).collect();
@@ -145,6 +156,9 @@ fn main() {
     let jobs: Vec<Job> = scenarios.into_iter().map(|sc| Job { prop: prop.clone(), sc }).collect();
     if let Some(path) = &args.replay {
         let v = mc_core::report::read_replay(path);
+        if prop == "C01" && v["replay"]["level"] == "codec" {
+            std::process::exit(c01::replay_codec(&v["replay"]));
+        }
         let name = v["replay"]["scenario"].as_str().unwrap_or("").to_string();
         let Some(job) = jobs.iter().find(|j| j.sc.name == name) else {
             eprintln!("MACHINERY: scenario {name} not in the scenario list of {prop}");
@@ -155,9 +169,26 @@ fn main() {
     let wall = args.wall_s.unwrap_or(if tier == "quick" { 55 } else { 1500 });
     let cfg = Cfg { wall: Duration::from_secs(wall), threads: mc_core::cli::threads(), max_unknown: 12 };
     let mut rep = Reporter::new(&prop);
+    let mut l1 = None;
+    if prop == "C01" {
+        let (st, viols) = c01::level1(&tier, mc_core::cli::threads());
+        rep.add_all(viols);
+        l1 = Some(st);
+    }
     let stats = explore::explore(&prop, &jobs, &bounds, &cfg, &mut rep);
     let mut ev = Evidence::new(&prop, &tier, level);
     stats.fill(&mut ev, rule);
+    if let Some(st) = &l1 {
+        ev.set("states", st.states);
+        ev.set("transitions", st.transitions);
+        ev.set("traces_validated_against_impl", st.transitions + st.twin_segmentations + stats.checked);
+        ev.set("codec_level_streams", st.streams);
+        ev.set("codec_level_unmerged_segmentations", st.twin_segmentations);
+        ev.set("codec_level_max_states_per_stream", st.max_states_per_stream);
+        ev.set("codec_level_sample", st.sample.clone());
+        ev.set("explanation", "states/transitions are those of the codec-level BFS (every transition is an execution of the real h1::Codec, so all are validated against the implementation); evaluations/executions are the dispatcher-level explorations");
+        eprintln!("C01 level 1: {} streams, {} states, {} transitions, {} un-merged segmentations", st.streams, st.states, st.transitions, st.twin_segmentations);
+    }
     for a in assumptions {
         ev.assume(a);
     }
